@@ -122,17 +122,21 @@ add("C17",
     "(F) boundary hit: alpha exists, is positive, alpha*b satisfies every facet inequality and one with equality, no larger multiple stays inside; every crossing point lies on "
     "the plane and on its segment, and conv(all-pairs crossing points) is EXACTLY conv(P) cut by the plane (both inclusions, any dimension). Tie: proj_B_to_hull outputs judged by "
     "KKT-multiplier certificates, alpha_for_B_with_P / B_with_P compared with the exact Q model, proj_P_to_simplex outputs checked to lie on the plane and on segments of the cloud "
-    "and to contain every all-pairs crossing point in their hull (convex-weight certificates) — all in the Coq VM.",
+    "and to contain every all-pairs crossing point in their hull (convex-weight certificates) — all in the Coq VM. Generators include sharp hulls (d+1..d+3 points) with a fan of "
+    "10 queries each and hulls with hundreds of facets (24-40 points in 4-5 D) with rays through facet centroids.",
     TRUST + "quadprog and qhull opaque; multipliers (scipy NNLS) and convex weights (HiGHS) are untrusted certificates; facet equations from scipy ConvexHull define the instance.",
     "Coq proof (weak duality, ray/facet algebra, slice = hull of crossings) + certificate checkers run by vm_compute", "DESIGN.md §5 C17")
 add("C18",
     "(F, Q, any fixed direction set) mean width: non-negative, translation invariant, positively homogeneous, monotone under adding points, unchanged by centring; gamut metric: "
-    "scale invariant, 1 relative to itself, <= 1 relative to a superset; the reduced-fraction executable model equals the specification model. (F, R) Jensen-Shannon divergence: "
+    "scale invariant, 1 relative to itself, <= 1 relative to a superset, and <= 1 for ANY cloud of non-negative combinations S R of the reference points R (mean width is monotone under "
+    "convex combinations; L1-normalisation + linear barycentric reduction turn non-negative into convex combinations): the estimator's fractional gamut in absolute capture is at most 1; "
+    "the reduced-fraction executable model equals the specification model. (F, R) Jensen-Shannon divergence: "
     "symmetric, normalisation invariant, zero exactly for proportional inputs, within [0, 1 bit]. Tie: compute_mean_width / compute_gamut re-computed exactly with the regenerated "
-    "directions; compute_volume against shoelace polygons, simplices (det/d!), boxes, 1-D extents; JS values enclosed by one Coq Interval goal per case.",
+    "directions; compute_volume against shoelace polygons, simplices (det/d!), boxes (also k-dim boxes moved rigidly into R^D), 1-D extents; ReceptorEstimator.compute_gamut(relative=False, "
+    "fraction=True) against the exact model on independently recomputed S and R with 0 < value <= 1 in the verdict; JS values enclosed by one Coq Interval goal per case.",
     TRUST + "Axioms: the standard library's real-number axioms + Classical_Prop.classic (stdlib ln/exp), as printed by Props/C18.v; the Interval tactic (checked reflexive evaluator). "
     "numpy's random generator regenerates the directions (opaque). NOT proved, tested only: Monte-Carlo mean width ~ geometric mean width, rotation invariance, hull volume in d >= 3 "
-    "beyond simplices/boxes (qhull only witness).",
+    "beyond simplices/boxes (qhull only witness), invariance of the volume under the harness's rigid embedding, the volume-metric fraction (spec predicate only). Known finding D22.",
     "Coq proof over Q and R + exact re-computation by vm_compute + Interval enclosures for ln", "DESIGN.md §5 C18")
 
 add("C14",
@@ -150,9 +154,10 @@ add("C15",
     "(F, all s, c > 0) gamut membership is unchanged; the solution polytope is mapped by x -> x/s (ranges scale by exactly 1/s); the weighted squared error of the twin at "
     "x/s is c^2 times the original (scalar/vector/matrix K), so exact minimisers correspond and predictions scale by c. Tie: every problem and its rescaled twin are both run "
     "through the real code; both fits carry the C04 weak-duality certificate in their own units and their predictions must agree up to c at the C04 accuracy of both; range "
-    "ends must scale by 1/s (rtol 1e-9); in_hull answers on relative-margin targets must coincide — evaluated in the Coq VM. Asserted only while both twins are well-scaled; a "
-    "stress stream (s, c in [2^-13, 2^13]) is recorded in the evidence, never asserted.",
-    TRUST + "Solvers/qhull opaque. Known finding D12 (absolute NNLS tolerance makes flat-gamut membership unit dependent) is reported as KNOWN-FINDING.",
+    "ends must scale by 1/s (rtol 1e-9); in_hull answers on relative-margin targets must coincide — evaluated in the Coq VM. Asserted while both twins are well-scaled, and in a WIDE stream "
+    "(c in [100, 1e4], bounds kept in [0.05, 10]) where the twin's fit certificate is judged at c times the tolerance and a twin fit that does not converge is counted, not asserted; a "
+    "stress stream (s, c in [2^-13, 2^13]) is recorded in the evidence, never asserted. Hull targets include points 0.3 % of the gamut extent inside/outside the surface.",
+    TRUST + "Solvers/qhull opaque. Known findings D12 / D21 (the flat-gamut NNLS fallback is unit dependent: different answers, or no convergence at small capture units) are reported as KNOWN-FINDING.",
     "Coq proof over Q (equivariance algebra) + paired certified runs compared by vm_compute", "DESIGN.md §5 C15")
 
 add("C08",
@@ -195,9 +200,11 @@ add("C11",
 
 add("C07",
     "(F) excitation: |b/(1+b) - p/(1+p)| = |b-p|/((1+b)(1+p)); error >= 0 and zero iff captures agree; every point with error <= s lies in an explicit polyhedron, so a Farkas "
-    "certificate for that polyhedron proves that EVERY in-bound intensity vector has error > s. (F over R) Poisson: the rational Frank-Wolfe gap at the returned point bounds its "
-    "negative-log-likelihood excess over EVERY in-bound vector with positive capture (from ln t <= t - 1); the likelihood is minimised exactly at capture = target. Verdicts "
-    "(bounds, positivity, prediction, gap / Farkas certificate at error - 1e-3, in-gamut reproduction by poisson, excitation and gaussian) evaluated in the Coq VM on every fit.",
+    "certificate for that polyhedron proves that EVERY in-bound intensity vector has error > s. (F over R) Poisson: the rational Frank-Wolfe gap at a point bounds its WEIGHTED "
+    "negative-log-likelihood excess over EVERY in-bound vector with positive capture (from ln t <= t - 1); through an untrusted reference point x0 the excess of the returned point is "
+    "bounded by tangent(x -> x0) + gap(x0), tight to first order; the likelihood is minimised exactly at capture = target. Verdicts (bounds, positivity, prediction, reference "
+    "certificate / Farkas certificate at error - 1e-3, in-gamut reproduction by poisson, excitation and gaussian) evaluated in the Coq VM on every fit; Poisson cases carry per-receptor "
+    "weights and are fitted as one row of a batch with several batch sizes.",
     TRUST + "Axioms for the Poisson theorems: the standard library's real-number axioms + Classical_Prop.classic (stdlib ln/exp), as printed by Props/C07.v. Solvers (CLARABEL, SCS "
     "bisection) opaque; Farkas multipliers from HiGHS (untrusted). The Poisson certificate needs a bounded box: the asserted stream uses finite bounds (infinite ub not covered). "
     "The returned point is clipped into the box (by at most 1% of the bound range with default settings) before the certificates are evaluated.",
